@@ -257,6 +257,7 @@ class CSSMediaRule(cssrule.CSSRuleRules):
                 if oldCssRules is not self._cssRules:
                     # the replaced rules are not part of this rule anymore
                     for r in oldCssRules:
+                        r._parent = None
                         r._parentRule = None
             else:
                 self._cssRules = oldCssRules
